@@ -4,9 +4,16 @@
     [0x110000 + b]).  Go compares strings bytewise; UTF-8 preserves code point
     order, so [str_ltb] below is the order the implementation uses. *)
 From Coq Require Export List NArith ZArith Bool Lia.
+From Coq Require String Ascii.
 Export ListNotations.
+Export String.StringSyntax.
+Global Open Scope string_scope.
+Global Open Scope list_scope.
 
 Definition str := list N.
+
+(** ASCII literals: [s "host_name"] *)
+Definition s (x : String.string) : str := map Ascii.N_of_ascii (String.list_ascii_of_string x).
 
 Fixpoint str_eqb (a b : str) : bool :=
   match a, b with
